@@ -37,6 +37,12 @@ def run(ctx):
                  "replay": {"expr": c["expr"], "loc": c["loc"], "prev": c["prev"]}}
                 for c in cases if c["match"] == "0"]
     failures += [dict(p, case=p.get("case")) for p in cc.harness_problems(recs) if p["kind"] in ("hang", "crash")]
+    # the expression AS WRITTEN (the value sets the generator rendered into text), independent of the parser's output
+    failures += [{"case": {"expr": t[2].replace("\\t", "\t"), "loc": t[3], "prev": int(t[4]), "go": t[5], "reading": t[6]},
+                  "why": ["the returned instant (%s local) does not satisfy the expression as written: the parser gave the text another meaning "
+                          "than the documented one, or the trigger fired on a non-matching date" % t[6]],
+                  "replay": {"expr": t[2].replace("\\t", "\t"), "loc": t[3], "prev": int(t[4])}}
+                 for r in recs for t in r["other"] if t and t[0] == "G" and len(t) >= 7][:3]
     mism = [{"case": cc.case_view(c), "what": "model and implementation return different results"} for c in cases if c["model"] != c["go"]]
     mism += [{"case": cc.case_view(c), "what": "the parser accepted an expression whose parsed fields are not well-formed (wf_fields, the hypothesis of the theorems, fails)"}
              for c in cases if c.get("wf") != "wf=1"]
